@@ -54,6 +54,9 @@ def gen(rng, tier, shard, nshards):
             if rng.random() < 0.07:
                 kw['kvcls'] = 'unclamped_endrep'
                 kw['mindeg'] = 2
+            elif rng.random() < 0.1:
+                kw['kvcls'] = 'jump'           # an interior knot of multiplicity p + 1: the point one ulp below it belongs to the left piece
+                kw['maxextra'] = 6
             if kw['pdim'] == 1 and rng.random() < 0.15:
                 kw['dim'] = 4
             if rng.random() < 0.08:
@@ -98,12 +101,12 @@ def check(case, ctx):
     if not sd['normalize_kv'] and any(kv[0] != 0.0 or kv[-1] != 1.0 for kv in sd['kvs']):
         ctx.tag('kv:range')
     doms = G.domains_of(o)
-    prms = G.param_tuples(rng, o, 9 if pdim == 1 else 7 if pdim == 2 else 4)
+    prms = G.param_tuples(rng, o, 9 if pdim == 1 else 7 if pdim == 2 else 4, ulp=True)
     # -- single / list / zeroth derivative -------------------------------------------------------------------
     plist = []
     for tags, prm in prms:
         for t, d in zip(tags, sd['degrees']):
-            ctx.tag('u:' + ('knot_full' if t == 'knot_m%d' % d else 'knot' if t.startswith('knot') else t))
+            ctx.tag('u:' + ('knot_full' if t == 'knot_m%d' % d else 'knot_ulp' if t == 'knot_ulp' else 'knot' if t.startswith('knot') else t))
         exact = S.point(prm)
         got = G.evaluate_single(o, prm)
         ctx.near(got, exact, tol, 'point/evaluate_single', 'evaluate_single%r differs from the definition' % (prm,),
